@@ -186,6 +186,11 @@ impl StateApplyManager {
 
     fn load_log(&mut self, ctx: &mut Context<Self>) {
         if self.last_applied_log == 0 || self.log_manager.is_none() || self.data_wrap.is_none() {
+            if self.snapshot_next_index > 1 {
+                // no log to replay, but a snapshot was loaded (e.g. installed from the leader, nothing applied since):
+                // the components still have to be told that loading has finished
+                self.load_complete(ctx);
+            }
             return;
         }
         let start_index = self.snapshot_next_index;
